@@ -22,6 +22,7 @@ Inductive cmd :=
 | CKeys (o : nat) (g : option str)
 | CMerge (dst a b : nat)
 | CWrite (o : nat)
+| CReread (dst src : nat)
 | CDump (o : nat)
 | CGetAll (o : nat)
 | CPath (o : nat)
@@ -166,6 +167,19 @@ Definition step (s : store) (c : cmd) : store * out :=
       | _, _ => (s, ORc ECONF_ERROR)
       end
   | CFree o => (sdel s o, ORc ECONF_SUCCESS)
+  | CReread dst src =>
+      (* econf_writeFile, then econf_readFile of that file with the object's own tags *)
+      match sget s src with
+      | Some kf =>
+          let r := read_bytes (mkPopts false false) [kf_delim kf] [kf_comment kf] (write_model kf) in
+          match r_err r with
+          | ECONF_SUCCESS =>
+              (sput s dst (keyfile_of_read new_empty (bs "/_out/w.conf") [kf_delim kf] [kf_comment kf] r),
+               OParse ECONF_SUCCESS (r_lines r))
+          | e => (sdel s dst, OParse e (r_lines r))
+          end
+      | None => (s, ONoObj)
+      end
   | CSet o _ _ _ _ _ | CGet o _ _ _ _ | CGetExt o _ _ | CGroups o | CKeys o _
   | CWrite o | CDump o | CGetAll o | CPath o | CTags o | CSetTags o _ _ =>
       match sget s o with
